@@ -7,6 +7,12 @@ mod c23;
 mod c24;
 mod c25;
 mod c26;
+#[cfg(feature = "full")]
+mod tygen;
+#[cfg(feature = "full")]
+mod c17;
+#[cfg(feature = "full")]
+mod c27;
 
 use util::*;
 
@@ -63,6 +69,10 @@ fn main() {
         "c24" => c24::run(&args, &corpus),
         "c25" => c25::run(&args, &corpus),
         "c26" => c26::run(&args),
+        #[cfg(feature = "full")]
+        "c17" => c17::run(&args),
+        #[cfg(feature = "full")]
+        "c27" => c27::run(&args),
         other => {
             eprintln!("unknown check {other}");
             std::process::exit(2);
